@@ -5,6 +5,7 @@ The reader's property-header parser (`reader/directory_pack/raw_layout.rs`: `Raw
 kind of failure (format error / panic) on every byte string.
 -/
 import JubakoModel.Model.DirLayout
+import JubakoModel.Model.ContentPack
 import JubakoModel.Generated.FuncsParse
 
 set_option linter.unusedSimpArgs false
@@ -254,5 +255,55 @@ theorem gen_rawPropertyParse (bs : Bytes) :
       simp [e] <;> same_close
     · have e : Generated.propTypeTryFrom (16 * 15) = .err .format := rfl
       simp [e] <;> same_close
+
+/-! ### `ContentPack::get_content` -/
+
+/-- the three lookups of `get_content` in the reader model: the content-info table entry, the cluster
+    (tail parsed, start of its payload), a blob of the cluster (decompressed first when needed) -/
+def modelInfoAt (f : Bytes) (ch : ContentHeader) (i : Nat) : Outcome (Nat × Nat) := do
+  let infoTable ← readBlock f ch.contentPtrPos (4 * ch.contentCount)
+  .ok (contentInfoDecode (slice infoTable (4 * i) 4))
+
+def modelGetCluster (f : Bytes) (ch : ContentHeader) (cl : Nat) : Outcome (ClusterTail × Nat) := do
+  let ptrTable ← readBlock f ch.clusterPtrPos (8 * ch.clusterCount)
+  clusterAt f (sizedOffsetDecode (slice ptrTable (8 * cl) 8))
+
+def modelGetBytes (decompress : Nat → Bytes → Option Bytes) (f : Bytes) (c : ClusterTail × Nat) (blob : Nat) : Outcome Bytes :=
+  let payload := slice f c.2 c.1.rawSize
+  if c.1.comp = 0 then blobOf c.1 payload blob
+  else
+    match decompress c.1.comp payload with
+    | none => .err .io
+    | some plain => blobOf c.1 (plain.take c.1.dataSize) blob
+
+/-- **The order of checks and lookups of `ContentPack::get_content` translated on every run is the reader
+    model's**: an index beyond the content count answers "no such content" before anything is read; the
+    content-info entry is read; a cluster index beyond the cluster count is a format error; then the cluster is
+    located and parsed, then the blob is cut out of it. -/
+theorem gen_contentGet (decompress : Nat → Bytes → Option Bytes) (f : Bytes) (i : Nat) :
+    contentGet decompress f i =
+      (contentOpen f).bind fun o =>
+        Generated.contentPackGetContent o.2.contentCount o.2.clusterCount (modelInfoAt f o.2) (modelGetCluster f o.2)
+          (modelGetBytes decompress f) i := by
+  unfold contentGet Generated.contentPackGetContent modelInfoAt modelGetCluster modelGetBytes
+  simp only [bind, pure]
+  cases contentOpen f with
+  | ok o =>
+    obtain ⟨a, ch⟩ := o
+    simp only [Outcome.bind_ok, Generated.idxIsValid, decide_eq_true_eq, Nat.not_lt, ge_iff_le]
+    by_cases h : ch.contentCount ≤ i
+    · simp [h]
+    · simp only [h, if_false]
+      simp only [Outcome.bind_assoc', Outcome.bind_ok]
+      congr 1; funext infoTable
+      split
+      · rfl
+      · congr 1; funext ptrTable
+        congr 1; funext r2
+        split
+        · rfl
+        · rename_i hc
+          cases hd : decompress r2.1.comp (slice f r2.2 r2.1.rawSize) <;> simp [hd]
+  | _ => rfl
 
 end Jubako
